@@ -126,6 +126,14 @@ CHECKS = {
         "assumptions": E1_ASSUME + ["regions on chromosomes absent from the bigWig are outside the property's domain",
                                     "zero-length stored values inside a region are don't-care for the extrema"],
     },
+    "C10": {
+        "level": "exploration",
+        "rule": "exhaustive cross product emitted by the independent encoder (harness/vh/src/enc.rs): {little, big endian} x {v1 raw, v2 raw, v3 raw/zlib, v4 raw/zlib} x 5 bigWig contents (bedGraph / variable-step / fixed-step sections, mixed) + 3 bigBed contents x chromosome-tree block sizes (single leaf and multi-level) x R-tree fan-outs x node placements (level order, depth first, children before the header, padded) x zoom variants x index-at-end / trailing magic; each file is first cross-checked by the independent decoder, then opened with BigWigRead/BigBedRead/GenericBBIRead, plain and cached: chroms, summary, all 153 ranges, values(), zoom queries, autosql, item count = encoded content. non-trivial = every file",
+        "require": ["encoded_files", "big_endian_files", "compressed_files", "version1_files", "multi_level_chrom_tree_files",
+                    "files_with_3+_index_levels", "range_queries", "zoom_queries"],
+        "assumptions": E1_ASSUME + ["only combinations the published format allows are emitted (compression only from version 3, summary offset 0 only in version 1, sorted chromosome keys)",
+                                    "files that are not well-formed (reader robustness) are outside the statement"],
+    },
 }
 
 HOOKS = {
